@@ -297,6 +297,12 @@ impl<'tcx> Cx<'tcx> {
                             o.raw("int", &format!("\"{}\"", bits));
                         } else if matches!(v, ConstValue::ZeroSized) {
                             o.b("zst", true);
+                        } else if let ConstValue::Scalar(mir::interpret::Scalar::Ptr(ptr, _)) = v {
+                            // `&STATIC`: name the static item
+                            let (prov, _) = ptr.prov_and_relative_offset();
+                            if let mir::interpret::GlobalAlloc::Static(sid) = self.tcx.global_alloc(prov.alloc_id()) {
+                                o.s("static", &self.path(sid));
+                            }
                         }
                     }
                     Const::Unevaluated(u, _) => {
